@@ -5,7 +5,7 @@ From Coq Require Import NArith List Bool.
 Import ListNotations.
 From Coq Require Import ZArith.
 From CXV Require Import Gen.TokTy Gen.ParserTables Parse.Balanced Gen.Blocks Parse.BlocksSM.
-From CXV Require Import Base.Regex Base.Cost Gen.LexRules Lex.PlyLoop Gen.StreamTables Stream.TokBuf Fmt.TokFmt PP.Filters Misc.ReprModel Gen.Schema Parse.Fold Parse.Declarator Parse.DeclSpec Parse.EnumList Parse.BaseClause Parse.NsHeader Parse.Specs Parse.VarStmt Parse.FnTail Parse.Init Parse.Members Parse.MethodTail Parse.Template.
+From CXV Require Import Base.Regex Base.Cost Gen.LexRules Lex.PlyLoop Gen.StreamTables Stream.TokBuf Fmt.TokFmt PP.Filters Misc.ReprModel Gen.Schema Parse.Fold Parse.Declarator Parse.DeclSpec Parse.EnumList Parse.BaseClause Parse.NsHeader Parse.Specs Parse.VarStmt Parse.FnTail Parse.Init Parse.Members Parse.MethodTail Parse.Template Parse.PQName.
 Open Scope N_scope.
 
 Definition nlen {A} (l : list A) : N := N.of_nat (length l).
@@ -597,8 +597,19 @@ Definition run_tdecl (args : list N) : list N :=
   | DErr e => [1; e]
   end.
 
+(* 97: a possibly qualified name.  Output: 0, rest length, typename flag, key length, key words, segment count, then
+   per segment: 0 (root) | 1 name | 2 count words *)
+Definition enc_seg (s : seg) : list N :=
+  match s with SRoot => [0] | SName n => [1; n] | SFund ws => 2 :: nlen ws :: ws end.
+Definition run_pqname (args : list N) : list N :=
+  match parse_pqname (dec_tks args) with
+  | DOk (q, rest) => 0 :: nlen rest :: bN (pq_typename q) :: nlen (pq_key q) :: pq_key q ++ nlen (pq_segs q) :: flat_map enc_seg (pq_segs q)
+  | DErr e => [1; e]
+  end.
+
 Definition run_case (cmd : N) (args : list N) : list N :=
   match cmd, args with
+  | 97, _ => run_pqname args
   | 96, _ => run_tdecl args
   | 95, _ => run_class_head args
   | 94, _ => run_method_end args
